@@ -291,6 +291,7 @@ func Check(env *core.Env, rep *core.Report) *core.Result {
 
 	// nested pipelines built from configuration files, through the binary
 	nestedBin := NestedBinCheck(env, rep, map[bool]int{false: 24, true: 400}[thorough])
+	CondChild(env, rep)
 	validated += nestedBin
 
 	// binding self-test: a corrupted trace must be rejected
